@@ -18,6 +18,29 @@ CHECKS = {
              "direction and decoded values in the other",
         units=[U("wire", "hv", "c01", shards=(4, 16))],
     ),
+    "C02": dict(
+        level="exploration",
+        rule="one case = one frontend API call in a long session against the real server with a recording handler "
+             "(direct and through the RwLock/RefCell adapters), distinct by hash of (operation, NEED_REPLY/REPLY_ACK/"
+             "adapter configuration, spec payload bytes of the arguments); plus every local-rejection class against a "
+             "byte-counting raw peer and queue indexes up to the maximum learnt from GET_QUEUE_NUM",
+        units=[U("calls", "hv", "c02", shards=(4, 12))],
+    ),
+    "C03": dict(
+        level="fault_enumeration",
+        rule="one case = (operation with random valid arguments, scripted handler outcome: success values / each error "
+             "variant / unusable result shape, NEED_REPLY, REPLY_ACK) run on a fresh frontend<->server connection; "
+             "distinct by (operation, outcome shape, configuration, argument bytes); non-trivial = the call was "
+             "executed and its return compared with the script or a blocked-reader certificate was taken",
+        units=[U("outcomes", "hv", "c03", shards=(8, 16))],
+    ),
+    "C08": dict(
+        level="fault_enumeration",
+        rule="one case = (receiver, message, segmentation plan or cut offset) or (sender, stream) under forced partial "
+             "writes; every 2-split, all 3-splits of short messages (sampled for long ones), byte-by-byte, random "
+             "segmentations, every cut offset followed by end-of-stream; distinct by (receiver, message, plan)",
+        units=[U("framing", "hv", "c08", shards=(8, 16))],
+    ),
     "C04": dict(
         level="exploration",
         rule="one case = one request history replayed against a fresh real server and the reference protocol model; "
